@@ -34,6 +34,10 @@ def gen_case_archive(seed, i):
     for _ in range(n):
         prof = r.choice(["plain", "vars", "control", "errors"])
         mp = G.match_part(r, prof, max_components=4)
+        if r.random() < 0.25:
+            # printing to a named stream (print's second argument), with or without default printouts
+            mp = r.choice([mp + ' print("to audit $.csvpath.line_number", "audit")', 'print("only audit", "audit")',
+                           'print("a", "audit") print("b") print("c", "log")'])
         ident = r.choice([None, "m" + str(r.randint(1, 50))])
         if ident in ids:
             ident = None
@@ -87,11 +91,12 @@ def check_member_dir(res, mdir, mo, collects, what=""):
     if meta.get("identity") != mo["identity"]:
         bad("meta.json identity", disk=meta.get("identity"))
     # printouts
-    if mo["printouts"]:
+    streams = [(k, v) for k, v in mo.get("printouts_all", [["default", mo["printouts"]]]) ]
+    if any(v for _k, v in streams):
         txt = files.get("printouts.txt", b"").decode("utf-8")
-        want = "---- PRINTOUT: default\n" + "".join(p + "\n" for p in mo["printouts"])
+        want = "".join(f"---- PRINTOUT: {k}\n" + "".join(p + "\n" for p in v) for k, v in streams)
         if txt != want:
-            bad("printouts.txt does not hold the printouts in order", disk=txt[:200], want=want[:200])
+            bad("printouts.txt does not hold the printouts (of every stream) in order", disk=txt[:200], want=want[:200])
     elif "printouts.txt" in files and files["printouts.txt"].strip():
         bad("printouts.txt present although nothing was printed")
     # data / unmatched
@@ -169,7 +174,7 @@ def case_archive(case):
     model_members = []
     for m in mobs:
         files = check_member_dir(res, os.path.join(run_dir, str(m["identity"])), m, collects)
-        model_members.append({"identity": str(m["identity"]), "nerrors": len(m["errors"]), "printouts": m["printouts"],
+        model_members.append({"identity": str(m["identity"]), "nerrors": len(m["errors"]), "printouts": [x for _k, v in m.get("printouts_all", [["default", m["printouts"]]]) for x in v],
                               "lines": (m["lines"] if collects and isinstance(m["lines"], list) else []),
                               "unmatched": m["unmatched"] or [], "valid": m["valid"], "completed": m["completed"],
                               "_files": sorted(fn for fn in files if fn != "manifest.json" and files[fn] != b"")})
